@@ -28,7 +28,7 @@ func propC07() *Property {
 			{ID: "C07.R3", Title: "possibly-nil highlighted item is checked before use", Floor: 7, Run: c07R3},
 			{ID: "C07.R4", Title: "keys are ignored while loading", Floor: 1, Run: c07R4},
 			{ID: "C07.R5", Title: "Backspace removes what one key press appended (a rune)", Floor: 2, Run: c07R5},
-			{ID: "C07.R6", Title: "every history entry is a page of its own", Floor: 2, Run: c07R6},
+			{ID: "C07.R6", Title: "every history entry is a page of its own", Floor: 1, Run: c07R6},
 			{ID: "C07.R7", Title: "a background load is delivered to the page it was started for (in-flight flag pairing; same instances as C08.R9)", Floor: 8, Run: c08R9},
 		},
 	}
@@ -752,6 +752,8 @@ func c07R6(c *Ctx) {
 				switch x := v.(type) {
 				case *ssa.Alloc:
 					return x.Heap && x.Parent() == fn
+				case *ssa.Const:
+					return x.Value == nil // "no page" (tested before the entry is added): not an existing page either
 				case *ssa.Phi:
 					for _, e := range x.Edges {
 						if !fresh(e, depth+1) {
